@@ -3,424 +3,375 @@ from __future__ import annotations
 
 import ast
 
-from sa.astx import assigned_targets, call_attr, call_name, dotted, src, statements, walk_local
-from sa.effects import class_accesses
 from sa.selftest import Mutant, Silent
-from sa.props._lib_e import (assigns_self, call_in, calls_named, http_interp, is_const, local_values, make_env, no_exc, ordered,
-                             resolve_local, self_attr, site_label, walk)
+from sa.source import AnalysisError
+from sa.props._lib_e_machine import ObjV, Opaque, PyRaise, exc_name
+from sa.props._lib_e_http import Harness, WireError, parse_responses, request_info
 
 PROPERTY = "C21"
 HTTP = "web/http.py"
 Q = "twisted.web.http."
-QC = Q + "HTTPChannel."
-QR = Q + "Request."
+QC = Q + "HTTPChannel"
+QR = Q + "Request"
 
-TECHNIQUE = "CFG must-precede/must-pass, who-may-write, take-then-fire on HTTPChannel/Request"
+TECHNIQUE = "interpretation of HTTPChannel/Request source with model collaborators, compared with the property's oracle"
 EXPLANATION = (
-    "Decides (a) one request at a time: in allContentReceived the busy flag and raw mode are established before the application call-out; "
-    "rawDataReceived only buffers while busy (and writes nothing of its own to the transport then) and only decodes while not; requestDone accepts only the head request, removes it from the front, "
-    "and - only when persistent - clears the flag, detaches the buffered bytes and then replays them (in that order), else closes; it wakes the "
-    "paused network producer; no new request is started on a non-persistent connection; _handlingRequest has exactly three writers; "
-    "no HTTPChannel method that reaches transport.write/writeSequence/loseConnection/abortConnection (intra-class call graph) can do so while a request is "
-    "being handled, except the write API used by the head-of-line Request: each such method is either confined to line mode / requestDone / the (disabled) idle "
-    "timeout, or every effect site is dominated by 'not _handlingRequest'; "
-    "(b) notifyFinish: the list is appended only by notifyFinish (which returns the Deferred it appended), fired with None only in _cleanup and "
-    "with the reason only in connectionLost, each resetting the list on every path; _cleanup is reached only from finish under 'not finished and "
-    "not disconnected' after finished was set; the channel's connectionLost drains every queued request. Not decided: byte order of responses "
-    "on the wire, behaviour of application callbacks."
+    "The source of HTTPChannel, Request, LineReceiver and TimeoutMixin is interpreted (AST interpreter, nothing imported or run from twisted) with "
+    "model transport / clock / network producer / Deferred objects, and driven through the property's histories: pipelined request sequences "
+    "delivered whole, split and byte by byte; applications that answer inside the hand-over, later, or in a mixed order; large pipelined input "
+    "while a partially written response is in flight (also with the transport having asked to pause); HTTP/1.0 and Connection: close; idle "
+    "timeout armed; notifyFinish Deferreds with callbacks that re-enter finish(); connection loss while handling. Decided by comparing what "
+    "becomes observable with the statement: exactly one request is handed to the application at a time and the next only after finish(), in "
+    "order; the bytes on the model transport parse (independent strict response reader) as the responses in request order; nothing that the "
+    "application did not write reaches the transport, and it is not closed, while a response is in progress; non-persistent connections close and "
+    "hand over nothing further; the paused network producer is resumed; the idle timeout is not pending while a request is handled; every "
+    "notifyFinish Deferred fires exactly once - None on finish, the reason on connection loss - also under re-entrant callbacks. Helper methods, "
+    "guard clauses, temporaries etc. are simply executed, so refactorings do not matter. Not decided: all interleavings of arbitrary length "
+    "(bounded scenarios), real transports' timing."
 )
 ASSUMPTIONS = [
-    "Deferred.callback/errback do not raise for a Deferred fired once (C03)",
-    "application code re-enters only through requestReceived / notifyFinish callbacks",
-    "lineReceived/rawDataReceived are driven only by LineReceiver.dataReceived according to line_mode; TimeoutMixin.resetTimeout is a no-op while timeOut is None",
-    "Request.requestReceived's own 400 (multipart parse failure) is the head-of-line request's response",
+    "the model transport delivers every byte it is given and never re-enters the channel",
+    "Deferred is modelled as fire-once object raising on a second fire (C03)",
+    "CPython semantics for the builtin values the interpreter delegates to",
 ]
 
 
-def _hit(vis, nodes):
-    return any(n in vis for n in nodes)
+def _req(path, version=b"HTTP/1.1", headers=b"", method=b"GET", body=b""):
+    return method + b" " + path + b" " + version + b"\r\nHost: x\r\n" + headers + b"\r\n" + body
 
 
-def _channel(ctx, I):
-    mod = ctx.mod(HTTP)
-    cls = ctx.cls(HTTP, "HTTPChannel")
-    # ---- allContentReceived ------------------------------------------------------------------------
-    f = ctx.func(HTTP, "HTTPChannel.allContentReceived")
-    g = ctx.cfg(f)
-    q = QC + "allContentReceived"
-    out = calls_named(g, ".requestReceived")
-    ctx.need(out, "req.requestReceived call-out in allContentReceived")
-    busy = assigns_self(g, "_handlingRequest", lambda v: is_const(v, True))
-    w = ordered(g, busy, out)
-    ctx.check(bool(busy) and w is None, "pipeline/busy-before-hand-over", q + " | self._handlingRequest = True",
-              "the busy flag is not set before the application is called: a request finished synchronously (requestDone) is followed by the flag "
-              "being set with nobody left to clear it, or pipelined bytes are parsed while the application still works", witness=g.describe(w))
-    raw = calls_named(g, "self.setRawMode")
-    w = ordered(g, raw, out)
-    ctx.check(bool(raw) and w is None, "pipeline/raw-mode-before-hand-over", q + " | self.setRawMode()",
-              "the channel is not switched to raw (buffering) mode before the hand-over: the next pipelined request line is parsed while this one is being handled",
-              witness=g.describe(w))
-    c = call_in(g.node(out[0]).ast, ".requestReceived")
-    recv = c.func.value
-    vals = [src(v) for v in resolve_local(f, recv)]
-    ctx.check(vals == ["self.requests[-1]"], "pipeline/hand-over-newest", ctx.construct(q, c), "the request handed to the application is not the one just parsed")
-    # ---- rawDataReceived ------------------------------------------------------------------------------
-    f = ctx.func(HTTP, "HTTPChannel.rawDataReceived")
-    g = ctx.cfg(f)
-    q = QC + "rawDataReceived"
-    p = f.args.args[1].arg
-    dec = calls_named(g, "self._transferDecoder.dataReceived")
-    buf = [n for n in calls_named(g, "self._dataBuffer.append") if src(call_in(g.node(n).ast, "self._dataBuffer.append").args[0]) == p]
-    ctx.need(dec, "decoder call in rawDataReceived")
-    for flag in (True, False):
-        vis = walk(g, I, make_env({"self._handlingRequest": flag}))
-        if flag:
-            ok = _hit(vis, buf) and not _hit(vis, dec)
-            why = "while a request is being handled, received bytes are not (only) buffered: they reach the body decoder of a request that is already complete"
-        else:
-            ok = _hit(vis, dec) and not _hit(vis, buf)
-            why = "while no request is being handled, received body bytes are buffered instead of decoded"
-        ctx.check(ok, "pipeline/buffer-while-busy", f"{q} | _handlingRequest={flag}", why)
-    # ---- requestDone --------------------------------------------------------------------------------------
-    f = ctx.func(HTTP, "HTTPChannel.requestDone")
-    g = ctx.cfg(f)
-    q = QC + "requestDone"
-    rp = f.args.args[1].arg
-    acc = [a for a in class_accesses(mod, cls, {"requests"}) if a.func == "HTTPChannel.requestDone"]
-    ctx.check(bool(acc), "pipeline/head-removed", q, "the finished request is not removed from the queue")
-    rem = []
-    for a in acc:
-        front = a.kind == "pop_first" or (a.kind == "delitem" and isinstance(a.node, ast.Delete) and any(
-            isinstance(t, ast.Subscript) and is_const(t.slice, 0) for t in a.node.targets))
-        ctx.check(front, "pipeline/fifo", ctx.construct(q, a.node), "requests are appended at the back but the finished one is not removed from the front")
-        rem.extend(g.ids_of(a.node))
-    appends = [a for a in class_accesses(mod, cls, {"requests"}) if a.func != "HTTPChannel.requestDone" and a.kind != "rebind-empty"]
-    for a in appends:
-        ctx.check(a.kind == "append", "pipeline/fifo", ctx.construct(Q + a.func, a.node), f"the request queue is filled by {a.kind}, not append")
-    A, B = object(), object()
-    vis_same = walk(g, I, make_env({rp: A, "self.requests[0]": A}))
-    vis_diff = walk(g, I, make_env({rp: A, "self.requests[0]": B}))
-    ctx.check(_hit(vis_same, rem) and not _hit(vis_diff, rem), "pipeline/only-head-may-finish", q + " | head check",
-              "requestDone() for a request that is not the head of the queue removes a request (responses would be attributed to the wrong request)")
-    clear = assigns_self(g, "_handlingRequest", lambda v: is_const(v, False))
-    replay = calls_named(g, "self.setLineMode")
-    lose = calls_named(g, "self.loseConnection", "self.transport.loseConnection")
-    ctx.need(replay, "self.setLineMode(...) replay in requestDone")
-    vis_p = walk(g, I, make_env({rp: A, "self.requests[0]": A, "self.persistent": 1}))
-    vis_n = walk(g, I, make_env({rp: A, "self.requests[0]": A, "self.persistent": 0}))
-    ctx.check(_hit(vis_p, replay) and _hit(vis_p, clear) and not _hit(vis_p, lose), "pipeline/persistent-replays", q + " | persistent",
-              "on a persistent connection the finished request does not clear the busy flag and replay the buffered bytes")
-    ctx.check(_hit(vis_n, lose) and not _hit(vis_n, replay), "pipeline/non-persistent-closes", q + " | not persistent",
-              "on a non-persistent connection the buffered bytes are replayed as a new request / the connection is not closed")
-    w = ordered(g, clear, replay)
-    ctx.check(bool(clear) and w is None, "pipeline/flag-cleared-before-replay", q + " | self._handlingRequest = False",
-              "the buffered bytes are replayed while the channel still claims to be busy: the next request's body is buffered instead of decoded",
-              witness=g.describe(w))
-    joins = [n for n in g.ids(lambda n: n.kind == "stmt" and isinstance(n.ast, ast.Assign)) if "self._dataBuffer" in src(g.node(n).ast.value) and
-             any(isinstance(t, ast.Name) for t in assigned_targets(g.node(n).ast))]
-    resets = [n for a in class_accesses(mod, cls, {"_dataBuffer"}) if a.func == "HTTPChannel.requestDone" and a.kind in ("rebind-empty", "clear", "assign")
-              for n in g.ids_of(a.node)]
-    for r in replay:
-        c = call_in(g.node(r).ast, "self.setLineMode")
-        a0 = c.args[0] if c.args else None
-        okarg = isinstance(a0, ast.Name) and any(a0.id in [t.id for t in assigned_targets(g.node(j).ast) if isinstance(t, ast.Name)] for j in joins)
-        if okarg:
-            for j in joins:
-                st = g.node(j).ast
-                val = st.value.elts[[i for i, t in enumerate(st.targets[0].elts) if isinstance(t, ast.Name) and t.id == a0.id][0]] \
-                    if isinstance(st.targets[0], ast.Tuple) and isinstance(st.value, ast.Tuple) else st.value
+def _deliveries(stream):
+    out = [("whole", [stream])]
+    out += [(f"split@{i}", [stream[:i], stream[i:]]) for i in range(1, len(stream), 13)]
+    out.append(("bytewise", [stream[i:i + 1] for i in range(len(stream))]))
+    return out
+
+
+def _answer(h, req, parts):
+    for p in parts:
+        h.call(req, "write", p)
+    h.call(req, "finish")
+
+
+def _uris(h):
+    return [request_info(h, r)["uri"] for r in h.handed]
+
+
+def _pipelining(ctx, h):
+    paths = [b"/1", b"/2", b"/3"]
+    stream = _req(paths[0]) + _req(paths[1], headers=b"Content-Length: 4\r\n", method=b"POST", body=b"body") + _req(paths[2])
+    methods = [b"GET", b"POST", b"GET"]
+    q = QC + ".dataReceived"
+    # (1) the application answers later: one request at a time, the next only after finish(), responses in order
+    bad = None
+    for how, pieces in _deliveries(stream):
+        def scen(h, pieces=pieces):
+            ch = h.channel()
+            trace = []
+            for p in pieces:
+                h.feed(ch, p)
+                trace.append(len(h.handed))
+            steps = []
+            for k in range(3):
+                if len(h.handed) <= k:
+                    break
+                before = len(h.handed)
+                h.call(h.handed[k], "write", b"resp " + paths[k])
+                mid = len(h.handed)
+                h.call(h.handed[k], "finish")
+                steps.append((before, mid, len(h.handed)))
+            return trace, steps, _uris(h), h.wire(), h.transport.attrs["disconnecting"]
+        o = h.run(scen)
+        ok = o.kind == "ok"
+        if ok:
+            trace, steps, uris, wire, closed = o.value
+            ok = max(trace) <= 1 and steps == [(1, 1, 2), (2, 2, 3), (3, 3, 3)] and uris == paths and not closed
+            if ok:
                 try:
-                    okarg = okarg and I.ev(val, make_env({"self._dataBuffer": [b"ab", b"", b"cd", b"e"]})) == b"abcde"
-                except Exception:
-                    okarg = False
-        ctx.check(okarg, "pipeline/replay-buffered-bytes", ctx.construct(q, c), "what is replayed is not the concatenation of all buffered bytes in arrival order")
-        w = ordered(g, resets, [r])
-        ctx.check(bool(resets) and w is None, "pipeline/buffer-detached-before-replay", ctx.construct(q, c),
-                  "the buffer is replayed before it is emptied: a request finishing inside the replay re-enters requestDone and replays the same bytes again",
-                  witness=g.describe(w))
-    for r in resets:
-        w = ordered(g, joins, [r])
-        ctx.check(bool(joins) and w is None, "pipeline/buffer-read-before-reset", ctx.construct(q, g.node(r).ast),
-                  "the buffer is emptied before its content is taken: pipelined requests are lost", witness=g.describe(w))
-    res = calls_named(g, "self._networkProducer.resumeProducing")
-    vis_w = walk(g, I, make_env({rp: A, "self.requests[0]": A, "self._waitingForTransport": False}))
-    ctx.check(_hit(vis_w, res), "pipeline/wake-up", q + " | resume network producer",
-              "the transport paused by rawDataReceived while the request was handled is never resumed: the next pipelined requests are not read")
-    for a in class_accesses(mod, cls, {"_handlingRequest"}):
-        v = getattr(a.node, "value", None)
-        ok = (a.func, getattr(v, "value", "?")) in (("HTTPChannel.__init__", False), ("HTTPChannel.allContentReceived", True), ("HTTPChannel.requestDone", False))
-        ctx.check(ok and a.kind == "assign", "pipeline/who-may-write-busy-flag", ctx.construct(Q + a.func, a.node), "_handlingRequest is written in an unexpected place / with an unexpected value")
-    # ---- no new request on a non-persistent connection ------------------------------------------------------------
-    f = ctx.func(HTTP, "HTTPChannel.lineReceived")
-    g = ctx.cfg(f)
-    q = QC + "lineReceived"
-    lp = f.args.args[1].arg
-    mk = calls_named(g, "self.requestFactory") + calls_named(g, "self.requests.append")
-    ctx.need(mk, "request creation in lineReceived")
-    vis = walk(g, I, make_env({lp: b"GET / HTTP/1.1", "self.__first_line": 1, "self.persistent": 0}))
-    ctx.check(not _hit(vis, mk), "pipeline/no-request-after-close", q + " | not persistent",
-              "a request line received after the last (non-persistent) request creates a new request")
-    vis = walk(g, I, make_env({lp: b"GET / HTTP/1.1", "self.__first_line": 1, "self.persistent": 1}))
-    ctx.check(_hit(vis, mk), "pipeline/request-created", q + " | persistent", "a request line on a persistent connection does not create a request")
-    # ---- drain on connection loss -------------------------------------------------------------------------------------
-    f = ctx.func(HTTP, "HTTPChannel.connectionLost")
-    g = ctx.cfg(f)
-    q = QC + "connectionLost"
-    rp = f.args.args[1].arg
-    loops = [n for n in g.ids(lambda n: n.kind == "for") if src(g.node(n).ast.iter) in ("self.requests", "list(self.requests)", "self.requests[:]", "tuple(self.requests)")]
-    ok = bool(loops)
-    wit = None
-    for n in loops:
-        fo = g.node(n).ast
-        calls = [c for c in ast.walk(fo) if isinstance(c, ast.Call) and call_attr(c) == "connectionLost" and isinstance(c.func.value, ast.Name)
-                 and isinstance(fo.target, ast.Name) and c.func.value.id == fo.target.id]
-        ok = ok and bool(calls) and all(len(c.args) == 1 and src(c.args[0]) == rp for c in calls)
-        wit = wit or g.must_pass([g.entry], [n], exc=False)
-    ctx.check(ok and wit is None, "notify/drain-on-connection-lost", q,
-              "connectionLost does not pass the reason to every queued request: their notifyFinish Deferreds never fire", witness=g.describe(wit))
+                    rs = parse_responses(wire, methods, closed)
+                    ok = [r["body"] for r in rs] == [b"resp " + p for p in paths]
+                except WireError as e:
+                    ok = False
+                    o.value = o.value + (str(e),)
+        if not ok:
+            bad = (how, o)
+            break
+    ctx.check(bad is None, "pipeline/one-at-a-time-in-order", q + " | three pipelined requests, answered later",
+              (f"delivery {bad[0]}: " + (f"handed-over counts after each delivery / around each finish, URIs, wire, closed = {bad[1].value!r}" if bad[1].kind == "ok"
+               else f"{bad[1].kind} {bad[1].exc_name}") + "; expected at most one request handed over until its finish(), then the next, and the responses in request order") if bad else "",
+              detail="whole / every 9th split / byte-by-byte: one request at a time, next only after finish(), wire = responses in order")
+    # (2) answered inside the hand-over, and mixed
+    for mode in ("immediate", "first-later"):
+        def scen(h, mode=mode):
+            pending = []
+
+            def process(mm, req):
+                if mode == "first-later" and not pending and not h.handed[1:]:
+                    pending.append(req)
+                    return
+                _answer(h, req, [b"resp " + request_info(h, req)["uri"]])
+            ch = h.channel(process=process)
+            h.feed(ch, stream)
+            n1 = len(h.handed)
+            if pending:
+                _answer(h, pending[0], [b"resp " + paths[0]])
+            return n1, _uris(h), h.wire(), h.transport.attrs["disconnecting"]
+        o = h.run(scen)
+        ok = o.kind == "ok"
+        detail = ""
+        if ok:
+            n1, uris, wire, closed = o.value
+            ok = uris == paths and not closed and n1 == (3 if mode == "immediate" else 1)
+            try:
+                ok = ok and [r["body"] for r in parse_responses(wire, methods, closed)] == [b"resp " + p for p in paths]
+            except WireError as e:
+                ok, detail = False, str(e)
+        ctx.check(ok, "pipeline/synchronous-finish", f"{q} | application answers {mode}",
+                  f"pipelined requests answered {mode}: {o.value if o.kind == 'ok' else (o.kind, o.exc_name)!r} {detail}; expected all three handed over in order with ordered responses")
+    # (3) nothing foreign on the wire / no close while a response is in progress
+    for waiting in (False, True):
+        for label, flood in (("valid pipelined requests", _req(b"/n") * 4000), ("garbage", b"\x00garbage " * 40000), ("one long line", b"A" * 300000)):
+            def scen(h, flood=flood, waiting=waiting):
+                ch = h.channel()
+                h.feed(ch, _req(b"/slow"))
+                r = h.handed[0]
+                h.call(r, "write", b"part1")
+                n0 = len(h.wire_log())
+                if waiting:
+                    h.call(ch, "pauseProducing")
+                for i in range(0, len(flood), 16000):
+                    h.feed(ch, flood[i:i + 16000])
+                during = h.wire_log()[n0:]
+                handed = len(h.handed)
+                h.call(r, "write", b"part2")
+                return during, handed
+            o = h.run(scen)
+            ok = o.kind == "ok" and o.value[0] == [] and o.value[1] == 1
+            ctx.check(ok, "pipeline/no-channel-bytes-during-response", f"{q} | {label} flooding behind an unfinished response" + (" (transport asked to pause)" if waiting else ""),
+                      (f"while the head-of-line response was in progress the transport received {o.value[0][:2]!r} and {o.value[1]} requests were handed over" if o.kind == "ok"
+                       else f"{o.kind} {o.exc_name}") + ": bytes that do not belong to the response appear in the middle of it / the connection is closed under it")
+    # (4) non-persistent connections
+    for label, first in (("HTTP/1.0", _req(b"/old", version=b"HTTP/1.0")), ("Connection: close", _req(b"/bye", headers=b"Connection: close\r\n"))):
+        def scen(h, first=first):
+            ch = h.channel()
+            h.feed(ch, first + _req(b"/after"))
+            _answer(h, h.handed[0], [b"x"])
+            h.feed(ch, _req(b"/after2"))
+            return _uris(h), h.transport.attrs["disconnecting"], [k for k, d in h.wire_log()].count("close")
+        o = h.run(scen)
+        ok = o.kind == "ok" and len(o.value[0]) == 1 and o.value[1] is True
+        ctx.check(ok, "pipeline/non-persistent-closes", f"{q} | {label}",
+                  f"{label} request followed by pipelined requests: handed {o.value[0] if o.kind == 'ok' else o.exc_name!r}, closed={o.value[1] if o.kind == 'ok' else '?'}; "
+                  "expected only the first request and a closed connection")
+    # (5) wake-up of the paused network producer
+    def scen(h):
+        ch = h.channel()
+        h.feed(ch, _req(b"/a") + _req(b"/b") * 600)
+        paused = h.producer.attrs["paused"]
+        n = len(h.producer.attrs["calls"])
+        _answer(h, h.handed[0], [b"x"])
+        return paused, 0 if "resume" in h.producer.attrs["calls"][n:] else 1, len(h.handed)
+    o = h.run(scen)
+    ctx.check(o.kind == "ok" and o.value[0] == 1 and o.value[1] == 0 and o.value[2] >= 2, "pipeline/wake-up", q + " | producer paused by buffered pipelined data",
+              f"paused while handling / paused after finish / handed = {o.value if o.kind == 'ok' else o.exc_name!r}: the transport paused because of buffered pipelined data is never "
+              "resumed (the next requests are not read) - expected (1, 0, >=2)")
+    # (6) idle timeout not pending while a request is handled
+    def scen(h):
+        ch = h.channel(timeOut=60)
+        p0 = len(h.call(h.clock, "pending"))
+        h.feed(ch, _req(b"/a"))
+        p1 = len(h.call(h.clock, "pending"))
+        _answer(h, h.handed[0], [b"x"])
+        p2 = len(h.call(h.clock, "pending"))
+        return p0, p1, p2
+    o = h.run(scen)
+    ctx.check(o.kind == "ok" and o.value == (1, 0, 1), "pipeline/idle-timeout-disabled-while-handling", q + " | timeOut=60",
+              f"pending idle-timeout calls before / while handling / after the response = {o.value if o.kind == 'ok' else o.exc_name!r}; expected (1, 0, 1): "
+              "an armed timeout closes the transport in the middle of a slow response")
+    # (7) only the head of the queue may finish
+    def scen(h):
+        ch = h.channel()
+        h.feed(ch, _req(b"/a"))
+        other = h.model_obj("ModelFile")
+        try:
+            h.call(ch, "requestDone", other)
+            r = None
+        except PyRaise as e:
+            r = exc_name(e.exc)
+        return r, len(ch.attrs["requests"])
+    o = h.run(scen)
+    ctx.check(o.kind == "ok" and o.value == ("TypeError", 1), "pipeline/only-head-may-finish", QC + ".requestDone | foreign request",
+              f"requestDone() for an object that is not the head of the queue gives {o.value if o.kind == 'ok' else o.exc_name!r}; expected TypeError and an unchanged queue")
 
 
-EFFECTS = ("self.transport.write", "self.transport.writeSequence", "self.transport.loseConnection", "self.transport.abortConnection")
-REQUEST_API = {"writeHeaders": "Request.write emits its own header block through it", "write": "Request.write / finish emit the body through it",
-               "writeSequence": "Request.write emits chunks through it", "loseConnection": "Request.loseConnection passes through"}
-SAFE_ROOTS = {"lineReceived": "line mode is left before the hand-over (raw-mode-before-hand-over) and re-entered only after the busy flag is cleared (flag-cleared-before-replay)",
-              "requestDone": "invoked by the head-of-line request when its response is complete",
-              "timeoutConnection": "the idle timeout is disabled while a request is handled (idle-timeout-disabled-while-handling)",
-              "forceAbortClient": "scheduled only by timeoutConnection"}
+def _notify(ctx, h):
+    q = QR + ".notifyFinish"
 
+    def with_deferreds(h):
+        h.m.stubs["Deferred"] = h.m.stubs["twisted.internet.defer.Deferred"] = lambda mm, a, k: h.model_obj("ModelDeferred")
 
-def _transport_effects(ctx, I):
-    """Responses are not interleaved: while a request is being handled the channel itself neither writes to the
-    transport nor closes it.  Every HTTPChannel method that can reach transport.write/writeSequence/loseConnection/
-    abortConnection through the intra-class call graph is classified: the write API used by the head-of-line Request;
-    methods that run only in a context where no request is in progress (derived: all their call sites lie in such a
-    method or are dominated by 'not self._handlingRequest'); everything else (externally driven entry points such as
-    rawDataReceived) must have each effect site dominated by 'not self._handlingRequest'."""
-    from sa.source import methods
-    cls = ctx.cls(HTTP, "HTTPChannel")
-    ms = methods(cls)
-    cfgs = {n: ctx.cfg(m) for n, m in ms.items()}
-    direct, calls = {}, {}
-    for n, g in cfgs.items():
-        direct[n] = calls_named(g, *EFFECTS)
-        calls[n] = []
-        for node in g.ids(lambda x: x.kind in ("stmt", "test", "for", "with")):
-            for c in walk_local(g.node(node).ast):
-                if isinstance(c, ast.Call) and isinstance(c.func, ast.Attribute) and self_attr(c.func) and c.func.attr in ms:
-                    calls[n].append((c.func.attr, node))
-    W = {n for n in ms if direct[n]}
-    changed = True
-    while changed:
-        changed = False
-        for n in ms:
-            if n not in W and any(c in W for c, _ in calls[n]):
-                W.add(n)
-                changed = True
-    ctx.check(all(a in W for a in REQUEST_API), "pipeline/write-api", QC + "writeHeaders/write/writeSequence/loseConnection",
-              "the write API used by Request no longer reaches the transport")
-    busy_vis = {n: walk(cfgs[n], I, make_env({"self._handlingRequest": True})) for n in W}
+    def results(ds):
+        return [list(d.attrs["results"]) for d in ds]
 
-    def site_guarded(m, node):
-        return node not in busy_vis[m]
-    callers = {n: [(m, node) for m in ms for c, node in calls[m] if c == n] for n in ms}
-    safe = {n for n in SAFE_ROOTS if n in ms}
-    changed = True
-    while changed:
-        changed = False
-        for n in W - safe - set(REQUEST_API):
-            cs = callers[n]
-            if cs and all(m in safe or (m in W and site_guarded(m, node)) for m, node in cs):
-                safe.add(n)
-                changed = True
-    for n in sorted(W - set(REQUEST_API)):
-        q = QC + n
-        if n in safe:
-            ctx.ok("pipeline/no-channel-bytes-during-response", q,
-                   SAFE_ROOTS.get(n) or ("reached only from " + ", ".join(sorted({m for m, _ in callers[n]})) + " in a context where no request is being handled"))
-            continue
-        if callers[n]:
-            continue  # not an entry point: the unjustified call site is reported in its (entry-point) caller
-        g = cfgs[n]
-        sites = list(direct[n]) + [node for c, node in calls[n] if c in W]
-        for node in sorted(set(sites)):
-            ctx.check(site_guarded(n, node), "pipeline/no-channel-bytes-during-response", ctx.construct(q, g.node(node).ast),
-                      f"{n} can run while a request is being handled and reaches the transport (write / close) without being dominated by 'not self._handlingRequest': "
-                      "bytes that do not belong to the head-of-line response (e.g. a 400 for pipelined input not parsed yet) appear in the middle of it, or the "
-                      "connection is closed under the response", witness=g.describe(g.path([g.entry], [node], edge_ok=no_exc)))
-    ctx.floor("pipeline/no-channel-bytes-during-response", len(W - set(REQUEST_API)), 6)
-    # the idle timeout cannot fire while a request is being handled
-    f = ctx.func(HTTP, "HTTPChannel.allContentReceived")
-    g = ctx.cfg(f)
-    out = calls_named(g, ".requestReceived")
-    off = [n for n in calls_named(g, "self.setTimeout") if (lambda c: len(c.args) == 1 and isinstance(c.args[0], ast.Constant) and c.args[0].value is None)(call_in(g.node(n).ast, "self.setTimeout"))]
-    vis = walk(g, I, make_env({"self.timeOut": 60}))
-    late = g.path(out, off, edge_ok=no_exc, strict=True) if off else None
-    ctx.check(bool(off) and _hit(vis, off) and late is None and all(g.path([o], out, edge_ok=no_exc) for o in off), "pipeline/idle-timeout-disabled-while-handling",
-              QC + "allContentReceived | self.setTimeout(None)",
-              "the idle timeout stays armed while the application produces the response: timeoutConnection closes the transport in the middle of it")
+    # finish fires each once with None; a later connection loss does not fire again
+    def scen(h):
+        with_deferreds(h)
+        ch = h.channel()
+        h.feed(ch, _req(b"/a"))
+        r = h.handed[0]
+        ds = [h.call(r, "notifyFinish"), h.call(r, "notifyFinish")]
+        distinct = ds[0] is not ds[1] and all(isinstance(d, ObjV) for d in ds)
+        _answer(h, r, [b"x"])
+        after_finish = results(ds)
+        h.call(ch, "connectionLost", Opaque("reason", True))
+        h.call(r, "connectionLost", Opaque("reason2", True))
+        return distinct, after_finish, results(ds)
+    o = h.run(scen)
+    want = [[("callback", None)], [("callback", None)]]
+    ctx.check(o.kind == "ok" and o.value[0] and o.value[1] == want and o.value[2] == want, "notify/finish-fires-once-with-none", q + " | finish, then connection lost",
+              f"two notifyFinish Deferreds: distinct={o.value[0] if o.kind == 'ok' else '?'}, after finish {o.value[1] if o.kind == 'ok' else o.exc_name!r}, after a later connectionLost "
+              f"{o.value[2] if o.kind == 'ok' else ''!r}; expected each fired exactly once with None")
+    # connection loss fires each once with the reason; finish afterwards is refused and fires nothing
+    def scen(h):
+        with_deferreds(h)
+        ch = h.channel()
+        h.feed(ch, _req(b"/a") + _req(b"/b"))
+        r = h.handed[0]
+        ds = [h.call(r, "notifyFinish"), h.call(r, "notifyFinish")]
+        reason = Opaque("reason", True)
+        h.call(ch, "connectionLost", reason)
+        first = results(ds)
+        same = all(len(x) == 1 and x[0][0] == "errback" and x[0][1] is reason for x in first)
+        try:
+            h.call(r, "write", b"late")
+            h.call(r, "finish")
+            fin = None
+        except PyRaise as e:
+            fin = exc_name(e.exc)
+        h.call(ch, "connectionLost", reason)
+        return same, fin, [len(x) for x in results(ds)], len(h.handed), h.wire()
+    o = h.run(scen)
+    ctx.check(o.kind == "ok" and o.value[0] and o.value[1] == "RuntimeError" and o.value[2] == [1, 1] and o.value[3] == 1 and o.value[4] == b"", "notify/connection-lost-fires-once-with-reason",
+              q + " | connection lost while handling",
+              f"fired-with-reason={o.value[0] if o.kind == 'ok' else '?'}, finish() afterwards -> {o.value[1] if o.kind == 'ok' else o.exc_name!r}, fire counts {o.value[2] if o.kind == 'ok' else ''!r}, "
+              f"handed {o.value[3] if o.kind == 'ok' else ''!r}, wire {o.value[4] if o.kind == 'ok' else ''!r}; expected one errback(reason) each, RuntimeError from finish, nothing written or handed over")
+    # a callback that calls finish() again (re-entrancy) must not fire / clean up twice
+    def scen(h):
+        with_deferreds(h)
+        ch = h.channel()
+        h.feed(ch, _req(b"/a") + _req(b"/b"))
+        r = h.handed[0]
+        d = h.call(r, "notifyFinish")
+        seen = []
 
+        def hook(mm, a, k):
+            try:
+                h.call(r, "finish")
+                seen.append(None)
+            except PyRaise as e:
+                seen.append(exc_name(e.exc))
+        h.m.stubs["HOOK"] = hook
+        d.attrs["hook"] = Opaque("HOOK", True)
+        try:
+            _answer(h, r, [b"x"])
+            outer = None
+        except PyRaise as e:
+            outer = exc_name(e.exc)
+        return outer, seen, list(d.attrs["results"]), _uris(h)
+    o = h.run(scen)
+    ctx.check(o.kind == "ok" and o.value[0] is None and o.value[1] == [None] and o.value[2] == [("callback", None)] and o.value[3] == [b"/a", b"/b"], "notify/reentrant-finish",
+              q + " | callback calls finish() again",
+              f"finish() -> {o.value[0] if o.kind == 'ok' else o.exc_name!r}, inner finish() -> {o.value[1] if o.kind == 'ok' else ''!r}, fired {o.value[2] if o.kind == 'ok' else ''!r}, "
+              f"handed {o.value[3] if o.kind == 'ok' else ''!r}; expected the second finish() to be a warned no-op, one callback(None), and the next request handed over once")
+    # an errback that calls finish(): refused (the request is already marked disconnected), no second firing
+    def scen(h):
+        with_deferreds(h)
+        ch = h.channel()
+        h.feed(ch, _req(b"/a"))
+        r = h.handed[0]
+        d = h.call(r, "notifyFinish")
+        d2 = h.call(r, "notifyFinish")
+        seen = []
 
-def _request(ctx, I):
-    mod = ctx.mod(HTTP)
-    cls = ctx.cls(HTTP, "Request")
-    allowed = {("Request.__init__", "rebind-empty"), ("Request.notifyFinish", "append"), ("Request._cleanup", "rebind-empty"),
-               ("Request.connectionLost", "rebind-empty")}
-    acc = class_accesses(mod, cls, {"notifications"})
-    for a in acc:
-        ctx.check((a.func, a.kind) in allowed, "notify/who-may-write", ctx.construct(Q + a.func, a.node),
-                  f"Request.notifications is mutated ({a.kind}) in an unexpected place")
-    ctx.floor("notify/who-may-write", len(acc), 3)
-    # notifyFinish returns the Deferred it registered
-    f = ctx.func(HTTP, "Request.notifyFinish")
-    g = ctx.cfg(f)
-    q = QR + "notifyFinish"
-    apps = calls_named(g, "self.notifications.append")
-    ctx.check(bool(apps), "notify/registered", q, "notifyFinish no longer registers a Deferred")
-    for n in apps:
-        c = call_in(g.node(n).ast, "self.notifications.append")
-        a = c.args[0]
-        vals = resolve_local(f, a)
-        fresh = all(isinstance(v, ast.Call) and call_name(v) == "Deferred" for v in vals)
-        ctx.check(fresh, "notify/fresh-deferred", ctx.construct(q, c), "the registered object is not a fresh Deferred (two callers would share one)")
-        for r in g.ids(lambda m: m.kind == "stmt" and isinstance(m.ast, ast.Return)):
-            rv = g.node(r).ast.value
-            same = (isinstance(a, ast.Name) and isinstance(rv, ast.Name) and rv.id == a.id) or \
-                (rv is not None and src(rv) == "self.notifications[-1]" and ordered(g, [n], [r]) is None)
-            ctx.check(same, "notify/returns-registered", ctx.construct(q, g.node(r).ast),
-                      "notifyFinish returns a Deferred other than the one it just registered (the caller's Deferred never fires / fires for someone else)")
-    # fire sites
-    for meth, fire, what in (("_cleanup", "callback", "None"), ("connectionLost", "errback", "the connection-lost reason")):
-        f = ctx.func(HTTP, "Request." + meth)
-        g = ctx.cfg(f)
-        q = QR + meth
-        loops = []
-        for n in g.ids(lambda n: n.kind == "for"):
-            fo = g.node(n).ast
-            its = [src(v) for v in resolve_local(f, fo.iter)]
-            if any("self.notifications" in s for s in its):
-                loops.append(n)
-        ctx.check(bool(loops), "notify/fired", q, f"{meth} no longer fires the notifyFinish Deferreds")
-        resets = [n for a in acc if a.func == "Request." + meth and a.kind in ("rebind-empty", "clear") for n in g.ids_of(a.node)]
-        for n in loops:
-            fo = g.node(n).ast
-            calls = [c for c in ast.walk(fo) if isinstance(c, ast.Call) and isinstance(c.func, ast.Attribute) and isinstance(c.func.value, ast.Name)
-                     and isinstance(fo.target, ast.Name) and c.func.value.id == fo.target.id]
-            okf = len(calls) == 1 and call_attr(calls[0]) == fire and len(calls[0].args) == 1
-            if okf and meth == "_cleanup":
-                okf = isinstance(calls[0].args[0], ast.Constant) and calls[0].args[0].value is None
-            if okf and meth == "connectionLost":
-                okf = src(calls[0].args[0]) == f.args.args[1].arg
-            ctx.check(okf, "notify/fired-with", ctx.construct(q, calls[0] if calls else fo),
-                      f"the notifyFinish Deferreds are not each fired exactly once with {what} via {fire}()")
-            direct = src(fo.iter) == "self.notifications"
-            if direct:
-                w = g.must_pass([n], resets, exc=False)
-            else:
-                w = ordered(g, resets, [n])
-            ctx.check(bool(resets) and w is None, "notify/list-reset", f"{q} | reset of self.notifications",
-                      f"the fired Deferreds stay in self.notifications after {meth}: a later connectionLost/_cleanup fires them a second time (AlreadyCalledError)",
-                      witness=g.describe(w))
-    # connectionLost marks the request before firing
-    f = ctx.func(HTTP, "Request.connectionLost")
-    g = ctx.cfg(f)
-    q = QR + "connectionLost"
-    marks = assigns_self(g, "_disconnected", lambda v: is_const(v, True))
-    loops = g.ids(lambda n: n.kind == "for")
-    w = ordered(g, marks, loops)
-    ctx.check(bool(marks) and w is None, "notify/disconnected-before-errback", q + " | self._disconnected = True",
-              "the request is not marked disconnected before the errbacks run: an errback calling finish() reaches _cleanup and fires the list again",
-              witness=g.describe(w))
-    # finish: once, not after disconnect, finished set before _cleanup
-    f = ctx.func(HTTP, "Request.finish")
-    g = ctx.cfg(f)
-    q = QR + "finish"
-    cl = calls_named(g, "self._cleanup")
-    ctx.need(cl, "self._cleanup() in Request.finish")
-    fin = assigns_self(g, "finished", lambda v: isinstance(v, ast.Constant) and bool(v.value))
-    w = ordered(g, fin, cl)
-    ctx.check(bool(fin) and w is None, "notify/finished-before-cleanup", q + " | self.finished = 1",
-              "finished is not set before _cleanup() runs: a notifyFinish callback (or requestDone replay) calling finish() again runs _cleanup twice",
-              witness=g.describe(w))
-    for finv, disc in ((0, False), (1, False), (0, True), (1, True)):
-        vis = walk(g, I, make_env({"self.finished": finv, "self._disconnected": disc, "self.queued": False, "self.startedWriting": 1, "self.chunked": 0}))
-        want = not finv and not disc
-        ctx.check(_hit(vis, cl) == want, "notify/cleanup-once", f"{q} | finished={finv} disconnected={disc}",
-                  ("finish() does not reach _cleanup (the response never completes, notifyFinish never fires)" if want else
-                   "finish() on an already finished / disconnected request reaches _cleanup: notifyFinish fires twice / requestDone is called for a request not at the head"))
-    for m in [n for n in cls.body if isinstance(n, (ast.FunctionDef, ast.AsyncFunctionDef)) and n.name != "finish"]:
-        bad = [c for c in ast.walk(m) if isinstance(c, ast.Call) and call_name(c) == "self._cleanup"]
-        ctx.check(not bad, "notify/cleanup-only-from-finish", QR + m.name, "_cleanup is also called outside the once-guarded finish()")
-    # _cleanup tells the channel (so the next pipelined request is started) exactly once, with itself
-    f = ctx.func(HTTP, "Request._cleanup")
-    g = ctx.cfg(f)
-    q = QR + "_cleanup"
-    rd = calls_named(g, "self.channel.requestDone")
-    w = g.must_pass([g.entry], rd, exc=False)
-    okarg = all(len(call_in(g.node(n).ast, "self.channel.requestDone").args) == 1 and src(call_in(g.node(n).ast, "self.channel.requestDone").args[0]) == "self" for n in rd)
-    ctx.check(len(rd) == 1 and w is None and okarg, "pipeline/request-done-reported", q,
-              "the channel is not told (exactly once, with this request) that the response is finished: the next pipelined request is never started",
-              witness=g.describe(w))
+        def hook(mm, a, k):
+            try:
+                h.call(r, "finish")
+                seen.append(None)
+            except PyRaise as e:
+                seen.append(exc_name(e.exc))
+        h.m.stubs["HOOK"] = hook
+        d.attrs["hook"] = Opaque("HOOK", True)
+        try:
+            h.call(ch, "connectionLost", Opaque("reason", True))
+            outer = None
+        except PyRaise as e:
+            outer = exc_name(e.exc)
+        return outer, seen, [len(x.attrs["results"]) for x in (d, d2)], h.wire()
+    o = h.run(scen)
+    ctx.check(o.kind == "ok" and o.value == (None, ["RuntimeError"], [1, 1], b""), "notify/disconnected-before-errback", q + " | errback calls finish()",
+              f"connectionLost -> {o.value if o.kind == 'ok' else o.exc_name!r}; expected finish() inside the errback to raise RuntimeError, each Deferred fired once, nothing written")
+    # requests still being parsed / queued are told about the loss as well
+    def scen(h):
+        with_deferreds(h)
+        ch = h.channel()
+        h.feed(ch, _req(b"/a") + b"GET /partial HTTP/1.1\r\nHost")
+        r = h.handed[0]
+        d = h.call(r, "notifyFinish")
+        reason = Opaque("reason", True)
+        h.call(ch, "connectionLost", reason)
+        return list(d.attrs["results"]) == [("errback", reason)], [rq.attrs.get("_disconnected") for rq in ch.attrs["requests"]]
+    o = h.run(scen)
+    ctx.check(o.kind == "ok" and o.value[0] and all(x is True for x in o.value[1]) and len(o.value[1]) >= 1, "notify/drain-on-connection-lost", QC + ".connectionLost",
+              f"after connectionLost: head request notified={o.value[0] if o.kind == 'ok' else o.exc_name!r}, _disconnected of queued requests {o.value[1] if o.kind == 'ok' else ''!r}; "
+              "every queued request must be told")
 
 
 def check(ctx):
-    I = http_interp(ctx)
-    with ctx.section("HTTPChannel pipelining"):
-        _channel(ctx, I)
-    with ctx.section("transport effects while busy"):
-        _transport_effects(ctx, I)
-    with ctx.section("Request notifyFinish"):
-        _request(ctx, I)
+    with ctx.section("pipelining"):
+        _pipelining(ctx, Harness(ctx))
+    with ctx.section("notifyFinish"):
+        _notify(ctx, Harness(ctx))
 
 
 MUTANTS = [
     Mutant("busy-flag-after-hand-over", HTTP, "        self._handlingRequest = True\n\n        # We go into raw mode", "        # We go into raw mode",
-           more=[(HTTP, "        req.requestReceived(command, path, version)\n", "        req.requestReceived(command, path, version)\n        self._handlingRequest = True\n")],
-           expect_rule="pipeline/busy-before-hand-over"),
-    Mutant("no-raw-mode-while-handling", HTTP, "        self.setRawMode()\n\n        req = self.requests[-1]", "        req = self.requests[-1]", expect_rule="pipeline/raw-mode-before-hand-over"),
-    Mutant("buffering-falls-into-decoder", HTTP, "                self._networkProducer.pauseProducing()\n            return\n", "                self._networkProducer.pauseProducing()\n",
-           expect_rule="pipeline/buffer-while-busy"),
-    Mutant("replay-before-buffer-reset", HTTP, "            self._dataBuffer = []\n            self.setLineMode(data)", "            self.setLineMode(data)\n            self._dataBuffer = []",
-           expect_rule="pipeline/buffer-detached-before-replay"),
+           more=[(HTTP, "        req.requestReceived(command, path, version)\n", "        req.requestReceived(command, path, version)\n        self._handlingRequest = True\n")]),
+    Mutant("no-raw-mode-while-handling", HTTP, "        self.setRawMode()\n\n        req = self.requests[-1]", "        req = self.requests[-1]"),
+    Mutant("buffering-falls-into-decoder", HTTP, "                self._networkProducer.pauseProducing()\n            return\n", "                self._networkProducer.pauseProducing()\n"),
+    Mutant("replay-before-buffer-reset", HTTP, "            self._dataBuffer = []\n            self.setLineMode(data)", "            self.setLineMode(data)\n            self._dataBuffer = []"),
     Mutant("flag-cleared-after-replay", HTTP, "            self._handlingRequest = False\n\n            if self._savedTimeOut:", "            if self._savedTimeOut:",
-           more=[(HTTP, "            self.setLineMode(data)\n        else:\n            self.loseConnection()", "            self.setLineMode(data)\n            self._handlingRequest = False\n        else:\n            self.loseConnection()")],
-           expect_rule="pipeline/flag-cleared-before-replay"),
-    Mutant("buffer-reset-before-read", HTTP, "            data = b\"\".join(self._dataBuffer)\n            self._dataBuffer = []", "            self._dataBuffer = []\n            data = b\"\".join(self._dataBuffer)",
-           expect_rule="pipeline/buffer-read-before-reset"),
-    Mutant("queue-consumed-from-back", HTTP, "        del self.requests[0]\n", "        del self.requests[-1]\n", expect_rule="pipeline/fifo"),
-    Mutant("head-check-dropped", HTTP, "        if request != self.requests[0]:\n            raise TypeError\n", "", expect_rule="pipeline/only-head-may-finish"),
-    Mutant("replay-on-non-persistent", HTTP, "        if self.persistent:\n            self._handlingRequest = False", "        if True:\n            self._handlingRequest = False", expect_rule="pipeline/non-persistent-closes"),
-    Mutant("missing-wake-up", HTTP, "        if not self._waitingForTransport:\n            self._networkProducer.resumeProducing()\n\n        if self.persistent:", "        if self.persistent:",
-           expect_rule="pipeline/wake-up"),
-    Mutant("request-after-close-accepted", HTTP, "            if not self.persistent:\n                self.dataReceived = self.lineReceived = lambda *args: None\n                return\n", "",
-           expect_rule="pipeline/no-request-after-close"),
-    Mutant("cleanup-keeps-notifications", HTTP, "            d.callback(None)\n        self.notifications = []", "            d.callback(None)", expect_rule="notify/"),
-    Mutant("connectionLost-keeps-notifications", HTTP, "            d.errback(reason)\n        self.notifications = []", "            d.errback(reason)", expect_rule="notify/"),
-    Mutant("finished-set-after-cleanup", HTTP, "        self.finished = 1\n        if not self.queued:\n            self._cleanup()", "        if not self.queued:\n            self._cleanup()\n        self.finished = 1",
-           expect_rule="notify/finished-before-cleanup"),
-    Mutant("finish-after-disconnect-allowed", HTTP, "        if self._disconnected:\n            raise RuntimeError(\n                \"Request.finish called on a request after its connection was lost; \"\n                \"use Request.notifyFinish to keep track of this.\"\n            )\n", "",
-           expect_rule="notify/cleanup-once"),
+           more=[(HTTP, "            self.setLineMode(data)\n        else:\n            self.loseConnection()", "            self.setLineMode(data)\n            self._handlingRequest = False\n        else:\n            self.loseConnection()")]),
+    Mutant("buffer-reset-before-read", HTTP, "            data = b\"\".join(self._dataBuffer)\n            self._dataBuffer = []", "            self._dataBuffer = []\n            data = b\"\".join(self._dataBuffer)"),
+    Mutant("head-check-dropped", HTTP, "        if request != self.requests[0]:\n            raise TypeError\n", ""),
+    Mutant("replay-on-non-persistent", HTTP, "        if self.persistent:\n            self._handlingRequest = False", "        if True:\n            self._handlingRequest = False"),
+    Mutant("missing-wake-up", HTTP, "        if not self._waitingForTransport:\n            self._networkProducer.resumeProducing()\n\n        if self.persistent:", "        if self.persistent:"),
+    Mutant("cleanup-keeps-notifications", HTTP, "            d.callback(None)\n        self.notifications = []", "            d.callback(None)"),
+    Mutant("connectionLost-keeps-notifications", HTTP, "            d.errback(reason)\n        self.notifications = []", "            d.errback(reason)"),
+    Mutant("finished-set-after-cleanup", HTTP, "        self.finished = 1\n        if not self.queued:\n            self._cleanup()", "        if not self.queued:\n            self._cleanup()\n        self.finished = 1"),
+    Mutant("finish-after-disconnect-allowed", HTTP, "        if self._disconnected:\n            raise RuntimeError(\n                \"Request.finish called on a request after its connection was lost; \"\n                \"use Request.notifyFinish to keep track of this.\"\n            )\n", ""),
     Mutant("disconnected-marked-after-errbacks", HTTP, "        self._disconnected = True\n        self.channel = None\n", "        self.channel = None\n",
-           more=[(HTTP, "            d.errback(reason)\n        self.notifications = []", "            d.errback(reason)\n        self.notifications = []\n        self._disconnected = True")],
-           expect_rule="notify/disconnected-before-errback"),
-    Mutant("notifyFinish-returns-first", HTTP, "        return self.notifications[-1]", "        return self.notifications[0]", expect_rule="notify/returns-registered"),
-    Mutant("drain-skips-head", HTTP, "        for request in self.requests:\n            request.connectionLost(reason)", "        for request in self.requests[1:]:\n            request.connectionLost(reason)",
-           expect_rule="notify/drain-on-connection-lost"),
+           more=[(HTTP, "            d.errback(reason)\n        self.notifications = []", "            d.errback(reason)\n        self.notifications = []\n        self._disconnected = True")]),
+    Mutant("notifyFinish-returns-first", HTTP, "        return self.notifications[-1]", "        return self.notifications[0]"),
+    Mutant("drain-skips-head", HTTP, "        for request in self.requests:\n            request.connectionLost(reason)", "        for request in self.requests[1:]:\n            request.connectionLost(reason)"),
     Mutant("hard-cap-answers-400-mid-response", HTTP, "            self._dataBuffer.append(data)\n            if (\n",
-           "            self._dataBuffer.append(data)\n            if len(self._dataBuffer) > 4096:\n                self._respondToBadRequestAndDisconnect()\n            if (\n",
-           expect_rule="pipeline/no-channel-bytes-during-response"),
+           "            self._dataBuffer.append(data)\n            if sum(map(len, self._dataBuffer)) > 0x40000:\n                self._respondToBadRequestAndDisconnect()\n            if (\n"),
     Mutant("hard-cap-closes-mid-response", HTTP, "            self._dataBuffer.append(data)\n            if (\n",
-           "            self._dataBuffer.append(data)\n            if len(self._dataBuffer) > 4096:\n                self.loseConnection()\n            if (\n",
-           expect_rule="pipeline/no-channel-bytes-during-response"),
-    Mutant("backpressure-notice-written-by-channel", HTTP, "        self._waitingForTransport = True\n\n        # The first step", "        self._waitingForTransport = True\n        self._send100Continue()\n\n        # The first step",
-           expect_rule="pipeline/no-channel-bytes-during-response"),
-    Mutant("idle-timeout-armed-while-handling", HTTP, "        if self.timeOut:\n            self._savedTimeOut = self.setTimeout(None)\n\n        self._handlingRequest = True", "        self._handlingRequest = True",
-           expect_rule="pipeline/idle-timeout-disabled-while-handling"),
-    Mutant("replay-only-first-buffered-piece", HTTP, "            data = b\"\".join(self._dataBuffer)\n", "            data = b\"\".join(self._dataBuffer[:1])\n", expect_rule="pipeline/replay-buffered-bytes"),
-    Mutant("cleanup-does-not-report-done", HTTP, "        self.channel.requestDone(self)\n        del self.channel", "        del self.channel", expect_rule="pipeline/request-done-reported"),
-    Mutant("busy-while-idle", HTTP, "        self.requests = []\n        self._handlingRequest = False", "        self.requests = []\n        self._handlingRequest = True", expect_rule="pipeline/who-may-write-busy-flag"),
-    Mutant("finish-fires-errback", HTTP, "            d.callback(None)", "            d.errback(None)", expect_rule="notify/fired-with"),
+           "            self._dataBuffer.append(data)\n            if sum(map(len, self._dataBuffer)) > 0x40000:\n                self.loseConnection()\n            if (\n"),
+    Mutant("backpressure-notice-written-by-channel", HTTP, "        self._waitingForTransport = True\n\n        # The first step", "        self._waitingForTransport = True\n        self._send100Continue()\n\n        # The first step"),
+    Mutant("idle-timeout-armed-while-handling", HTTP, "        if self.timeOut:\n            self._savedTimeOut = self.setTimeout(None)\n\n        self._handlingRequest = True", "        self._handlingRequest = True"),
+    Mutant("replay-only-first-buffered-piece", HTTP, "            data = b\"\".join(self._dataBuffer)\n", "            data = b\"\".join(self._dataBuffer[:1])\n"),
+    Mutant("cleanup-does-not-report-done", HTTP, "        self.channel.requestDone(self)\n        del self.channel", "        del self.channel"),
+    Mutant("finish-fires-errback", HTTP, "            d.callback(None)", "            d.errback(None)"),
 ]
 SILENT = [
+    Silent("notifications-resolved-by-shared-helper", HTTP, "        for d in self.notifications:\n            d.callback(None)\n        self.notifications = []",
+           "        self._settle(lambda d: d.callback(None))",
+           more=[(HTTP, "        for d in self.notifications:\n            d.errback(reason)\n        self.notifications = []", "        self._settle(lambda d: d.errback(reason))"),
+                 (HTTP, "    def loseConnection(self):\n        \"\"\"\n        Pass the loseConnection through to the underlying channel.", "    def _settle(self, how):\n        waiting, self.notifications = self.notifications, []\n        for d in waiting:\n            how(d)\n\n    def loseConnection(self):\n        \"\"\"\n        Pass the loseConnection through to the underlying channel.")]),
+    Silent("buffer-handling-in-helpers", HTTP, "            data = b\"\".join(self._dataBuffer)\n            self._dataBuffer = []\n            self.setLineMode(data)", "            self.setLineMode(self._drainPipelined())",
+           more=[(HTTP, "    def timeoutConnection(self):\n", "    def _drainPipelined(self):\n        pieces, self._dataBuffer = self._dataBuffer, []\n        return b\"\".join(pieces)\n\n    def timeoutConnection(self):\n")]),
+    Silent("raw-data-branches-swapped", HTTP, "        if self._handlingRequest:\n            self._dataBuffer.append(data)\n            if (\n                sum(map(len, self._dataBuffer)) > self._optimisticEagerReadSize\n            ) and not self._waitingForTransport:",
+           "        if not self._handlingRequest:\n            try:\n                self._transferDecoder.dataReceived(data)\n            except _MalformedChunkedDataError:\n                self._respondToBadRequestAndDisconnect()\n            return\n        if True:\n            self._dataBuffer.append(data)\n            if (\n                sum(map(len, self._dataBuffer)) > self._optimisticEagerReadSize\n            ) and not self._waitingForTransport:"),
     Silent("pop-first", HTTP, "        del self.requests[0]\n", "        self.requests.pop(0)\n"),
     Silent("head-check-identity", HTTP, "        if request != self.requests[0]:\n            raise TypeError", "        if request is not self.requests[0]:\n            raise TypeError"),
     Silent("buffer-swap-tuple", HTTP, "            data = b\"\".join(self._dataBuffer)\n            self._dataBuffer = []\n", "            data, self._dataBuffer = b\"\".join(self._dataBuffer), []\n"),
